@@ -29,23 +29,14 @@ Fixpoint home (c : coll) (tid : nat) {struct c} : option (list dict) :=
            end) subs
   end.
 
-(** ** the journal of successful edits *)
-Inductive jev := JSet (p : path) (v : value) | JDel (p : path).
+(** ** the journal of successful edits (nested-dict semantics) *)
+Inductive jev :=
+| JSet (p : path) (v : value)          (* d[..p] = v *)
+| JDel (p : path)                      (* del d[..p] *)
+| JClear (p : path)                    (* d[..p].clear(): everything below p goes, p stays *)
+| JSetTree (p : path) (t : tree).      (* d[..p] = {...}: whatever was below p is replaced *)
 
 Definition is_error (o : outcome) : bool := match o with OErr _ => true | _ => false end.
-
-Fixpoint journal_of (ops : list op) (outs : list outcome) : list jev :=
-  match ops, outs with
-  | o :: ops', out :: outs' =>
-      (if is_error out then []
-       else match o with
-            | SetV _ kp k (Leaf v) => [JSet (kp ++ [k]) v]
-            | Del _ kp k => [JDel (kp ++ [k])]
-            | Pop _ kp k None => [JDel (kp ++ [k])]
-            | _ => []
-            end) ++ journal_of ops' outs'
-  | _, _ => []
-  end.
 
 Fixpoint is_prefix (q p : path) : bool :=
   match q, p with
@@ -54,13 +45,18 @@ Fixpoint is_prefix (q p : path) : bool :=
   | _ :: _, [] => false
   end.
 
-(** what the journal says about [p]: [None] untouched, [Some None] deleted,
+Definition strict_prefix (q p : path) : bool := is_prefix q p && negb (path_eqb q p).
+
+(** what the journal says about [p]: [None] untouched, [Some None] gone,
     [Some (Some v)] written *)
 Fixpoint jstate (p : path) (j : list jev) (st : option (option value)) : option (option value) :=
   match j with
   | [] => st
   | JSet q v :: j' => jstate p j' (if path_eqb q p then Some (Some v) else st)
   | JDel q :: j' => jstate p j' (if is_prefix q p then Some None else st)
+  | JClear q :: j' => jstate p j' (if strict_prefix q p then Some None else st)
+  | JSetTree q t :: j' =>
+      jstate p j' (if is_prefix q p then Some (leaf_at (skipn (List.length q) p) t) else st)
   end.
 
 Definition env_prefix : string := "INVOKE_".
@@ -82,12 +78,53 @@ Definition expected (dflts overrides : tree) (cfgs : list dict) (e : list (strin
 (** ** what is outside the statement *)
 (** settings paths mentioned anywhere *)
 Definition jpaths (j : list jev) : list path :=
-  map (fun ev => match ev with JSet p _ => p | JDel p => p end) j.
+  flat_map (fun ev => match ev with
+                      | JSet p _ | JDel p | JClear p => [p]
+                      | JSetTree p t => map (fun q => p ++ fst q) (leaf_paths t)
+                      end) j.
 
 Definition candidates (dflts overrides : tree) (cfgs : list dict) (j : list jev) (view : dict)
   : list path :=
   map fst (leaf_paths (Node view)) ++ map fst (leaf_paths dflts) ++ map fst (leaf_paths overrides) ++
   flat_map (fun g => map fst (leaf_paths (Node g))) cfgs ++ jpaths j.
+
+(** does a key exist at [p] right now (as a setting, or as a section holding a
+    setting)?  Decided by the reference itself. *)
+Definition exists_now (dflts overrides : tree) (cfgs : list dict) (e : list (string * string))
+           (j : list jev) (p : path) : bool :=
+  existsb (fun q => is_prefix p q &&
+                    match expected dflts overrides cfgs e j q with Some _ => true | None => false end)
+          (p :: map fst (leaf_paths dflts) ++ map fst (leaf_paths overrides) ++
+           flat_map (fun g => map fst (leaf_paths (Node g))) cfgs ++ jpaths j).
+
+Definition tree_ev (p : path) (t : tree) : jev :=
+  match t with Leaf v => JSet p v | Node _ => JSetTree p t end.
+
+(** the journal after a body: the successful edits, in order.  Whether
+    [setdefault] / [pop(k, default)] change anything depends on whether the
+    key exists at that moment. *)
+Fixpoint journal_run (ex : list jev -> path -> bool) (ops : list op) (outs : list outcome)
+         (j : list jev) : list jev :=
+  match ops, outs with
+  | o :: ops', out :: outs' =>
+      let evs :=
+        if is_error out then []
+        else match o with
+             | SetV _ kp k t => [tree_ev (kp ++ [k]) t]
+             | Del _ kp k => [JDel (kp ++ [k])]
+             | Pop _ kp k None => [JDel (kp ++ [k])]
+             | Pop _ kp k (Some _) => if ex j (kp ++ [k]) then [JDel (kp ++ [k])] else []
+             | PopItem _ kp => match out with OPair k _ => [JDel (kp ++ [k])] | _ => [] end
+             | Clear _ kp => [JClear kp]
+             | SetDefault _ kp k d =>
+                 if ex j (kp ++ [k]) then []
+                 else [match d with Some t => tree_ev (kp ++ [k]) t | None => JSet (kp ++ [k]) VNone end]
+             | Update _ kp kvs => map (fun kv => tree_ev (kp ++ [fst kv]) (snd kv)) kvs
+             | _ => []
+             end in
+      journal_run ex ops' outs' (j ++ evs)
+  | _, _ => j
+  end.
 
 (** a written path must be a plain setting (or new) in every level, and lie
     under sections only *)
@@ -99,7 +136,18 @@ Fixpoint strict_prefixes (p : path) : list path :=
 
 Definition write_ok (levels : list tree) (ev : jev) : bool :=
   match ev with
-  | JDel _ => true
+  | JDel _ | JClear _ => true
+  | JSetTree p t =>
+      (* a section written where no level has a plain value, its content
+         type-consistent with every level *)
+      forallb (fun l =>
+                 match lookup p l with
+                 | Some (Leaf _) => false
+                 | Some sub => compatible t sub && compatible sub t
+                 | None => true
+                 end &&
+                 forallb (fun r => match lookup r l with Some (Leaf _) => false | _ => true end)
+                         (strict_prefixes p)) levels
   | JSet p _ =>
       forallb (fun l =>
                  match lookup p l with Some (Node _) => false | _ => true end &&
@@ -147,7 +195,7 @@ Fixpoint records_ok (c : coll) (dflts overrides : tree) (levels : list tree)
       | None => false
       | Some cfgs =>
           let e := env_hd envs in
-          let j' := j ++ journal_of (bodies t) outs in
+          let j' := journal_run (exists_now dflts overrides cfgs e) (bodies t) outs j in
           if forallb (write_ok levels) j' then
             Nat.eqb (List.length outs) (List.length (bodies t)) &&
             view_ok dflts overrides cfgs e j v0 &&
